@@ -193,6 +193,22 @@ class Cache:
             self._norm_cased_files[norm_cased_filename] = None
             self._built_files.append(filename)
 
+    def abort_building_file(self, filename):
+        """Undo a call to ``start_building_file``.
+
+        We call this if we were unable to finish preparing to build the
+        file, so that we never called the function passed to
+        ``FileBuilder.build_file_with_comparison``.
+
+        Arguments:
+            filename (str): The non-norm-cased filename.
+        """
+        with self._files_lock:
+            self._files.pop(filename, None)
+            self._norm_cased_files.pop(os.path.normcase(filename), None)
+            if filename in self._built_files:
+                self._built_files.remove(filename)
+
     def finish_building_file(self, operation):
         """Record the result of building the specified file.
 
